@@ -14,8 +14,12 @@ use std::collections::BTreeMap;
 
 pub struct C02;
 
-const CHAINS: [&str; 4] = ["", "a", "ab", "abc"];
-const IDS: [&str; 4] = ["", "c", "bc", "b"];
+// short strings built to collide under concatenation, plus pairs of long strings that differ only in
+// their last character (a key that looks at a prefix or a fixed-size digest of less than everything
+// would confuse them)
+const CHAINS: [&str; 6] = ["", "a", "ab", "abc", "zzzzzzzzzzzzzzzzzzzzzzzzzzzzzzzzzzzzzzzzzzzzzzzzzzzzzzzzzzzzzzzzzzzzzzzz-1", "zzzzzzzzzzzzzzzzzzzzzzzzzzzzzzzzzzzzzzzzzzzzzzzzzzzzzzzzzzzzzzzzzzzzzzzz-2"];
+const IDS: [&str; 6] = ["", "c", "bc", "b", "0x00000000000000000000000000000000000000000000000000000000000000000000-1", "0x00000000000000000000000000000000000000000000000000000000000000000000-2"];
+const NC: u8 = 6;
 const SRCS: [&str; 3] = ["src", "src2", ""];
 
 #[derive(Clone, Copy, Debug, Serialize, Deserialize, PartialEq, Eq, PartialOrd, Ord)]
@@ -44,14 +48,14 @@ pub struct Case {
 }
 
 fn mref() -> impl Strategy<Value = MRef> {
-    (0u8..4, 0u8..4, 0u8..3, 0u8..3, 0u8..3).prop_map(|(chain, id, src, dest, ph)| MRef { chain, id, src, dest, ph })
+    (0u8..NC, 0u8..NC, 0u8..3, 0u8..3, 0u8..3).prop_map(|(chain, id, src, dest, ph)| MRef { chain, id, src, dest, ph })
 }
 
 fn op() -> impl Strategy<Value = Op> {
     prop_oneof![
         4 => proptest::collection::vec(mref(), 1..5).prop_map(Op::Approve),
         2 => (0u8..3, mref(), prop_oneof![4 => Just(true), 1 => Just(false)]).prop_map(|(caller, m, authorised)| Op::Validate { caller, m, authorised }),
-        5 => (0u8..16, 0u8..8, prop_oneof![6 => Just(true), 1 => Just(false)]).prop_map(|(slot, change, authorised)| Op::ValidateStored { slot, change, authorised }),
+        5 => (0u8..36, 0u8..8, prop_oneof![6 => Just(true), 1 => Just(false)]).prop_map(|(slot, change, authorised)| Op::ValidateStored { slot, change, authorised }),
         1 => mref().prop_map(|m| Op::ValidateAsOther { m }),
     ]
 }
@@ -104,7 +108,7 @@ impl Property for C02 {
         "C02"
     }
     fn rule(&self) -> &'static str {
-        "proptest histories (<=30 quick / <=60 thorough ops) of batched approvals (with in-batch duplicates and re-use of known ids), consumption attempts (probe contract calling as itself, accounts with/without authorisation, exact replay of a stored message or with one field changed, a contract naming another address) over pools built to collide: chains {\"\",a,ab,abc} x ids {\"\",c,bc,b}; oracle = reference map (chain,id)->NotApproved/Approved(msg)/Executed moving only forward, event trace per op, sweep of is_message_executed over all 16 pairs and is_message_approved over stored messages and one-field variants after every op. non-trivial = history re-approves an executed id, or consumes with exactly one mismatching field after an approval, or has an in-batch duplicate id, or touches two ids whose chain||id concatenations coincide"
+        "proptest histories (<=30 quick / <=60 thorough ops) of batched approvals (with in-batch duplicates and re-use of known ids), consumption attempts (probe contract calling as itself, accounts with/without authorisation, exact replay of a stored message or with one field changed, a contract naming another address) over pools built to collide: chains {\"\",a,ab,abc, two 70-character strings differing in the last character} x ids {\"\",c,bc,b, two 70-character strings differing in the last character}; oracle = reference map (chain,id)->NotApproved/Approved(msg)/Executed moving only forward, event trace per op, sweep of is_message_executed over all 36 pairs and is_message_approved over stored messages and one-field variants after every op. non-trivial = history re-approves an executed id, or consumes with exactly one mismatching field after an approval, or has an in-batch duplicate id, or touches two ids whose chain||id concatenations coincide"
     }
     fn cases(&self, tier: Tier) -> u64 {
         tier.pick(3000, 40000)
@@ -204,7 +208,7 @@ impl Property for C02 {
                         Op::Validate { caller, m, authorised } => (*caller, *m, *authorised, false),
                         Op::ValidateStored { slot, change, authorised } => {
                             // prefer ids the history already knows (monotone in slot), else a raw slot
-                            let key = if model.is_empty() { (slot / 4, slot % 4) } else { *model.keys().nth(*slot as usize % model.len()).unwrap() };
+                            let key = if model.is_empty() { (slot / NC, slot % NC) } else { *model.keys().nth(*slot as usize % model.len()).unwrap() };
                             let base = match model.get(&key) {
                                 Some(St::Approved(m)) | Some(St::Executed(m)) => *m,
                                 None => MRef { chain: key.0, id: key.1, src: 0, dest: 0, ph: 0 },
@@ -214,7 +218,7 @@ impl Property for C02 {
                                 4 => MRef { src: (base.src + 1) % 3, ..base },
                                 5 => MRef { ph: (base.ph + 1) % 3, ..base },
                                 6 => MRef { dest: (base.dest + 1) % 3, ..base },
-                                _ => MRef { id: (base.id + 1) % 4, ..base },
+                                _ => MRef { id: (base.id + 1) % NC, ..base },
                             };
                             if *change >= 4 && matches!(model.get(&key), Some(St::Approved(_))) {
                                 cx.label("consume_one_field_mismatch");
@@ -295,8 +299,8 @@ impl Property for C02 {
                 touched_concat.insert((cat, *k));
             }
             // sweep
-            for c in 0..4u8 {
-                for i in 0..4u8 {
+            for c in 0..NC {
+                for i in 0..NC {
                     let st = model.get(&(c, i));
                     let ex = w.executed(c, i);
                     ensure_p!(
